@@ -296,23 +296,25 @@ template<class T> static void run_jobs(const char* label){
 // ================================================================== PART 1: products
 #if PART==1
 // (A*B)[c][r] = sum_k A[k][r]*B[c][k];  A = mat<K,R> (K columns, R rows), B = mat<C,K>, result mat<C,R>. sel = ((K-2)*3+(R-2))*3+(C-2)
-template<class T,bool ASSIGN> static inline void prod_mm(const In<T>& in,vf::Ctx& c,int K,int R,int C){
+template<class T,bool ASSIGN,bool SELF=false> static inline void prod_mm(const In<T>& in,vf::Ctx& c,int K,int R,int C){
 	T got[16]; bool ret_ok=true;
 	with_shape((K-2)*3+(R-2),[&](auto sa){ constexpr int K_=decltype(sa)::C, R_=decltype(sa)::R;
 		with_n(C-2,[&](auto nc){ constexpr int C_=decltype(nc)::N;
 			with_qual(QI(in),[&](auto qq){ constexpr glm::qualifier Q=decltype(qq)::Q;
 				if constexpr(ASSIGN && !(K_==R_&&C_==K_)){ return; }
 				else { glm::mat<K_,R_,T,Q> A=ldm<K_,R_,T,Q>(in.a); glm::mat<C_,K_,T,Q> B=ldm<C_,K_,T,Q>(in.b);
-					if constexpr(ASSIGN){ glm::mat<K_,R_,T,Q>& ret=(A*=B); stm(A,got); ret_ok=(&ret==&A); } else { glm::mat<C_,R_,T,Q> P=A*B; stm(P,got); } }
+					if constexpr(ASSIGN && SELF){ glm::mat<K_,R_,T,Q>& ret=(A*=A); stm(A,got); ret_ok=(&ret==&A); (void)B; } else if constexpr(ASSIGN){ glm::mat<K_,R_,T,Q>& ret=(A*=B); stm(A,got); ret_ok=(&ret==&A); } else { glm::mat<C_,R_,T,Q> P=A*B; stm(P,got); } }
 			}); }); });
 	bool small=all_small(in.a,K*R)&&all_small(in.b,C*K); W<T> w[16];
 	for(int cc=0;cc<C;cc++) for(int r=0;r<R;r++){ Elem<T> e; for(int k=0;k<K;k++) e.mul(in.a[k*R+r],in.b[cc*K+k]); w[cc*R+r]=e.fin_(small); }
-	Lab lab{ASSIGN?"mat%dx%d*=mat%dx%d":"mat%dx%d*mat%dx%d",K,R,C,K,QI(in),R};
+	Lab lab{SELF?"mat%dx%d*=itself(mat%dx%d)":ASSIGN?"mat%dx%d*=mat%dx%d":"mat%dx%d*mat%dx%d",K,R,C,K,QI(in),R};
 	if(!ret_ok) c.fail(lab_str(lab)+":compound-assignment-does-not-return-*this","other","*this");
 	judge<T>(c,C*R,got,w,lab);
 }
 template<class T> static void chk_mul_mm(const In<T>& in,vf::Ctx& c){ int sel=modn(in.sel,27); prod_mm<T,false>(in,c,2+sel/9,2+(sel/3)%3,2+sel%3); }
 template<class T> static void chk_mulassign_mm(const In<T>& in,vf::Ctx& c){ int n=2+modn(in.sel,3); prod_mm<T,true>(in,c,n,n,n); }
+// the right operand aliases the left one: m *= m must still be the product of the OLD m with itself
+template<class T> static void chk_mulassign_self(const In<T>& in0,vf::Ctx& c){ In<T> in=in0; for(int i=0;i<16;i++) in.b[i]=in.a[i]; int n=2+modn(in.sel,3); prod_mm<T,true,true>(in,c,n,n,n); }
 // (M*v)[r] = sum_c M[c][r]*v[c]
 template<class T> static void chk_mul_mv(const In<T>& in,vf::Ctx& c){
 	int si=modn(in.sel,9), C=2+si/3, R=2+si%3; T got[4];
@@ -337,7 +339,7 @@ template<class T> static void chk_mul_vm(const In<T>& in,vf::Ctx& c){
 	judge<T>(c,C,got,w,Lab{"vec%d*mat%dx%d",R,C,R,0,QI(in),0});
 }
 OPS(mul_mm,F_PROD,27,d_prod,1000,100000)
-OPS(mulassign_mm,F_PROD,3,d_sq,2000,100000)
+OPS(mulassign_mm,F_PROD,3,d_sq,2000,100000) OPS(mulassign_self,F_PROD,3,d_sq,2000,100000)
 OPS(mul_mv,F_PROD,9,d_mv,1000,100000)
 OPS(mul_vm,F_PROD,9,d_vm,1000,100000)
 #endif
@@ -444,7 +446,7 @@ template<class T> __attribute__((noinline)) static W<T> ew(char op,T x,T y){
 		switch(op){
 			case '+': return w_value<T>((T)(a+b)); case '-': return w_value<T>((T)(a-b)); case '*': return w_value<T>((T)(a*b));
 			default: { W<T> w; if(!isfinite_b(x)||!isfinite_b(y)||y==0) return w; __float128 q=(__float128)x/(__float128)y; long double aq=(long double)fabsq(q);
-				if(aq>=tmax<T>()/2) return w; w.dom=D_TOL; w.what=W_ROUND; w.center=q; w.want=(T)(a/b); w.cls="rounding"; w.bound=4*uround<T>()*aq+2*minsub<T>(); return w; }
+				if(aq>=tmax<T>()/2) return w; { T qt=(T)q; if((__float128)qt==q && qt!=0){ W<T> e=w_value<T>(qt); e.center=q; e.cls="quotient-exactly-representable"; return e; } } /* statement: exact whenever the exact result is representable (84/7 must be 12) */ w.dom=D_TOL; w.what=W_ROUND; w.center=q; w.want=(T)(a/b); w.cls="rounding"; w.bound=4*uround<T>()*aq+2*minsub<T>(); return w; }
 		}
 	} else {
 		if(op=='/'){ W<T> w; if(y==0) return w; if(std::is_signed<T>::value && x==std::numeric_limits<T>::min() && y==(T)-1) return w; w.dom=D_VALUE; w.what=W_EXACT; w.cls="exact"; w.want=(T)(x/y); return w; }
@@ -455,7 +457,7 @@ template<class T> __attribute__((noinline)) static W<T> ew(char op,T x,T y){
 // judged only to 2^-10 relative there, so that index mix-ups stay visible while the documented approximation raises no alarm
 template<class T> static inline void relax_lowp(W<T>& w,int q){
 #if defined(C02_ALIGNED)
-	if constexpr(std::is_same<T,float>::value){ if(q==2 && w.dom==D_TOL){ w.bound=(long double)fabsq(w.center)/1024+2*minsub<T>(); w.cls="aligned_lowp-reciprocal-approximation"; } }
+	if constexpr(std::is_same<T,float>::value){ if(q==2 && (w.dom==D_TOL || (w.dom==D_VALUE && std::string(w.cls)=="quotient-exactly-representable"))){ w.dom=D_TOL; w.what=W_ROUND; w.bound=(long double)fabsq(w.center)/1024+2*minsub<T>(); w.cls="aligned_lowp-reciprocal-approximation"; } }
 #endif
 }
 // generic element-wise check over one shape: BODY computes got[] from glm operands A,B,s (sets present=false when the overload does not exist);
